@@ -81,6 +81,33 @@ def converter_interval(P, u, limits=None):
     return (lo, hi, False, var)
 
 
+def rule_check_options(P, R, r6):
+    """consistency of the synchronisation options (shared with C08: CONTINUE is forced under TIMEOUT, otherwise RESYNC and
+    the synchro timeout loop for ever between SYNCHRONIZATION and ELECTION)."""
+    u = P.unit('SupvisorsOptions.check_options')
+    fm = factmap(u)
+    rm = {ast.unparse(c.args[0]).split('.')[-1]: {tuple(f) for f in fm.at(c)} for c in own_nodes(u.node)
+          if isinstance(c, ast.Call) and call_text(c) == 'self.synchro_options.remove'}
+    ok = rm.get('CORE') == {('self.core_identifiers', False), ('SynchronizationOptions.CORE in self.synchro_options', True)}
+    R.check(r6, ok, 'CORE is dropped exactly when core_identifiers is empty', 'consistency|CORE', u.loc(),
+            'check_options removes CORE under %s' % sorted(rm.get('CORE', ())))
+    ok = rm.get('STRICT') == {('self.supvisors_list', False), ('SynchronizationOptions.STRICT in self.synchro_options', True)}
+    R.check(r6, ok, 'STRICT is dropped exactly when supvisors_list is empty (None or empty list)',
+            'consistency|STRICT', u.loc(), 'check_options removes STRICT under %s' % sorted(rm.get('STRICT', ())))
+    rz = [(n, {tuple(f) for f in fm.at(n)}) for n in own_nodes(u.node) if isinstance(n, ast.Raise)]
+    ok = len(rz) == 1 and rz[0][1] == {('self.synchro_options', False)} and \
+        rz[0][0].lineno > max([c.lineno for c in own_nodes(u.node) if isinstance(c, ast.Call)
+                               and call_text(c) == 'self.synchro_options.remove'] or [0])
+    R.check(r6, ok, 'only an empty resulting synchro_options is refused', 'consistency|empty', u.loc(),
+            'check_options raises under %s' % [sorted(x[1]) for x in rz])
+    asg = [a for a in own_nodes(u.node) if isinstance(a, ast.Assign)
+           and ast.unparse(a.targets[0]) == 'self.supvisors_failure_strategy']
+    ok = len(asg) == 1 and ast.unparse(asg[0].value) == 'SupvisorsFailureStrategies.CONTINUE' and \
+        ('SynchronizationOptions.TIMEOUT in self.synchro_options', True) in {tuple(f) for f in fm.at(asg[0])}
+    R.check(r6, ok, 'TIMEOUT forces supvisors_failure_strategy to CONTINUE', 'consistency|TIMEOUT', u.loc(),
+            'check_options does not force CONTINUE under TIMEOUT')
+
+
 def run(P, R):
     PR = P.cls('Parser')
 
@@ -381,28 +408,7 @@ def run(P, R):
     r6 = R.rule('R6', 'consistency rules', 'check_options drops CORE when core_identifiers is empty, STRICT when '
                 'supvisors_list is empty, refuses only an empty resulting synchro_options, and forces '
                 'supvisors_failure_strategy to CONTINUE under TIMEOUT', 4)
-    u = P.unit('SupvisorsOptions.check_options')
-    fm = factmap(u)
-    rm = {ast.unparse(c.args[0]).split('.')[-1]: {tuple(f) for f in fm.at(c)} for c in own_nodes(u.node)
-          if isinstance(c, ast.Call) and call_text(c) == 'self.synchro_options.remove'}
-    ok = rm.get('CORE') == {('self.core_identifiers', False), ('SynchronizationOptions.CORE in self.synchro_options', True)}
-    R.check(r6, ok, 'CORE is dropped exactly when core_identifiers is empty', 'consistency|CORE', u.loc(),
-            'check_options removes CORE under %s' % sorted(rm.get('CORE', ())))
-    ok = rm.get('STRICT') == {('self.supvisors_list', False), ('SynchronizationOptions.STRICT in self.synchro_options', True)}
-    R.check(r6, ok, 'STRICT is dropped exactly when supvisors_list is empty (None or empty list)',
-            'consistency|STRICT', u.loc(), 'check_options removes STRICT under %s' % sorted(rm.get('STRICT', ())))
-    rz = [(n, {tuple(f) for f in fm.at(n)}) for n in own_nodes(u.node) if isinstance(n, ast.Raise)]
-    ok = len(rz) == 1 and rz[0][1] == {('self.synchro_options', False)} and \
-        rz[0][0].lineno > max([c.lineno for c in own_nodes(u.node) if isinstance(c, ast.Call)
-                               and call_text(c) == 'self.synchro_options.remove'] or [0])
-    R.check(r6, ok, 'only an empty resulting synchro_options is refused', 'consistency|empty', u.loc(),
-            'check_options raises under %s' % [sorted(x[1]) for x in rz])
-    asg = [a for a in own_nodes(u.node) if isinstance(a, ast.Assign)
-           and ast.unparse(a.targets[0]) == 'self.supvisors_failure_strategy']
-    ok = len(asg) == 1 and ast.unparse(asg[0].value) == 'SupvisorsFailureStrategies.CONTINUE' and \
-        ('SynchronizationOptions.TIMEOUT in self.synchro_options', True) in {tuple(f) for f in fm.at(asg[0])}
-    R.check(r6, ok, 'TIMEOUT forces supvisors_failure_strategy to CONTINUE', 'consistency|TIMEOUT', u.loc(),
-            'check_options does not force CONTINUE under TIMEOUT')
+    rule_check_options(P, R, r6)
     # the index of a '#' application is the WHOLE trailing number of its name: group 1 of the regular expression captures
     # one or more digits (regex syntax tree: a repetition of digits INSIDE the group)
     import re as _re
